@@ -64,7 +64,7 @@ def stmt(rng, depth, ind):
     if c < 0.58:
         return pad + "for i in %s:\n%s" % (expr(rng), block(rng, depth + 1, ind + 1))
     if c < 0.7:
-        doc = rng.choice(["", "'''doc'''\n", "'\\ud800 lone'\n", "1\n", "b'not a doc'\n"])
+        doc = rng.choice(["", "'''doc'''\n", "'\\ud800 lone'\n", "1\n", "b'not a doc'\n", "''\n"])
         kind = rng.choice(["def", "def", "async def"])
         body = block(rng, depth + 1, ind + 1)
         if rng.random() < 0.3:
